@@ -51,7 +51,10 @@ def run(ctx):
     if ctx.pid == "C05":
         runlevel.with_extra(ctx, "c05nfs1", lambda: single_sample_specs(ctx))
     stats, samples = runlevel.noisy_replay(ctx, rep, ctx.pid)
+    # ONE WHOLE CALL of optimize() (Opt.init + Full.step + Opt.finish): noise detection, number and place of the final samples, yval_vec
+    wstats = runlevel.whole_replay(ctx, rep, modes=("auto", "decl", "he", "det")) if ctx.pid == "C05" else None
     rep.coverage = {
+        "whole_run_model": wstats,
         "evaluations": stats["iterations"] + stats["final_selects"], "distinct_nontrivial": stats["moves"] + stats["reevals"] + stats["final_selects"],
         "rule": "one evaluation = one loop iteration (or final selection) of a traced run replayed through Noisy.iterStep / finalChoice with the run's oracle values (evaluated points, logged values, GP estimates, "
                 "re-estimated history, quantile values, fresh samples); compared: (u, u_best, yval, fval, fsd) after every iteration, final u, yval_vec, mean, SEM; non-trivial = incumbent moves + re-estimations + final selections",
@@ -74,6 +77,34 @@ def widen(ctx, rep0):
     from .. import tracer, gen
     rng = ctx.sub_rng("c05w")
     specs = []
+    # the runs on which the incumbent/history model and the code disagree, cut short right after the disagreeing iteration (same seed, same
+    # trajectory up to there) and finished with a single final sample: if what the code holds for its incumbent at that moment is not an
+    # observation at that point, the truncated run's yval_vec shows it
+    import json
+    for d in rep0.disagreements[:4]:
+        c = d.get("case") or {}
+        if "spec" not in c or "iter_hint" not in c:
+            continue
+        for extra in range(0, 4):
+            sp = json.loads(json.dumps(c["spec"]))
+            sp["options"] = dict(sp.get("options", {}), max_iter=max(1, c["iter_hint"] + extra), noise_final_samples=1)
+            specs.append(sp)
+        for extra in range(0, 8):
+            sp = json.loads(json.dumps(c["spec"]))
+            sp["options"] = dict(sp.get("options", {}), max_fun_evals=max(3, c.get("calls_hint", 0) + 1 + extra), noise_final_samples=1)
+            specs.append(sp)
+        # the same problem with a single final sample under other seeds
+        for j in range(12):
+            sp = json.loads(json.dumps(c["spec"]))
+            sp["seed"] = (sp.get("seed") or 0) + 1 + j
+            sp["options"] = dict(sp.get("options", {}), noise_final_samples=1)
+            specs.append(sp)
+    # long, very noisy runs with a single final sample: the incumbent is often moved back to an earlier iterate after a re-estimation
+    for j in range(48):
+        sp = gen.make_spec(rng, D=2, mode=rng.choice(["auto", "decl", "he"]), geom="box", cons=None, opt_loc="inside", target="quad")
+        sp["noise"] = rng.choice([1.0, 3.0])
+        sp["options"] = {"max_fun_evals": rng.choice([150, 200]), "noise_final_samples": 1}
+        specs.append(sp)
     for _ in range(64):
         sp = gen.make_spec(rng, mode=rng.choice(["auto", "decl", "he"]), cons="rand")
         sp["options"] = gen.small_options(rng, sp["D"], sp["mode"])
